@@ -844,6 +844,8 @@ where
         let jobs_done_future = server.wait_all();
         pin_mut!(jobs_done_future);
         wait_for(jobs_done_future, job_futures.as_mut()).await?;
+        // wait_all may have given away every token, including our own.
+        server.ensure_token_or_cheat("self", &mut cheat).await?;
         let errored = {
             let r = result.replace(Ok(()));
             let errored = r.is_err();
